@@ -32,6 +32,10 @@ CHECKS = {
                 technique="symbolic execution of the compiled EvalRates with sentinel-initialised k: the store guard of every k[i] is extracted and SMT-compared with Tmin<=T<Tmax for all T; callers' zero-initialisation read from the compiled Fex/Jac",
                 text="For every window shape (none, lower, upper, both, zero, negative, equal bounds; KROME spellings .LE. > d-exponents NONE) in all six formats, z3 shows for all Tgas that k[i] is assigned iff the window predicate holds; adjacent piecewise windows have exactly one active member at every T including boundaries; Fex/Jac hand EvalRates a zero-initialised array.",
                 note="Temperature is a real-valued symbol (boundaries are ordinary values). Reactions overridden by a rate modifier are excluded by design (C13)."),
+    "C14": dict(engine=E2, cat="exploration", sec="6 C14",
+                technique="CrossHair symbolic execution (z3) of the real Network add/remove/allowed-species/source-sink logic on stub species with symbolic integer identities (all paths), plus solver-selected operation sequences on real reactions compared with an explicit model; the extend command is driven for real and compared with the same model",
+                text="From every pre-state with <=2 held reactions one operation of each of 11 kinds keeps species = species of held reactions + required, reactants/products/sources/sinks recomputed, held = added and allowed, none lost; all histories of 2 operations (3 in thorough); setting the allowed list later equals constructing with it; on symbolic stub species the same invariants hold for every aliasing pattern of labels; `naunet extend` keeps exactly the reactions the model predicts.",
+                note="Bounded pools and history lengths; a one-step argument from arbitrary small pre-states stands in for longer histories only as far as the model state (held, skipped, allowed, required) is the whole state."),
     "C15": dict(engine=E2, cat="exploration", sec="6 C15",
                 technique="CrossHair symbolic execution (z3) of the real Network.find_duplicate_reaction / remove_reaction on stub reactions with symbolic integer identities (all paths), plus solver-enumerated selections of real Reaction objects for every comparison mode; counterexamples replayed natively",
                 text="For every list of <=4 reactions (as equality patterns of symbolic labels) the duplicate indices, duplicate list and first-member list equal the specification, and removing the reported reactions leaves one per class; for real reactions (permutations, electron spellings, differing windows/types) every selection of <=3 from a pool of 10 agrees with an independent equivalence per mode; __eq__/__hash__ consistency for all pairs.",
